@@ -49,6 +49,11 @@ v('c12-handler-swallows','R-C12.6',CMD,"""        except EvolutionException as e
             self.stderr.write(six.text_type(e))
 
     def _add_tasks""")
+v('c12-simulation-failure-logged','R-C12.7','mutators/base.py',"""        except CannotSimulate:
+            self.can_simulate = False""","""        except (CannotSimulate, SimulationFailure):
+            self.can_simulate = False""",edits=[{'file':P+'mutators/base.py','old':"""        except CannotSimulate:
+            self.can_simulate = False""",'new':"""        except (CannotSimulate, SimulationFailure):
+            self.can_simulate = False"""},{'file':P+'mutators/base.py','old':"from django_evolution.errors import CannotSimulate",'new':"from django_evolution.errors import CannotSimulate, SimulationFailure"}],note='an invalid evolution degrades to "cannot simulate", which the gate lets through')
 # silent
 v('c12-s-local-can-simulate','R-C12.2',CMD,"        if not self.evolver.can_simulate():","        can_simulate = self.evolver.can_simulate()\n\n        if not can_simulate:",expect='silent')
 v('c12-s-else-raise','R-C12.2',CMD,"""        if diff.is_empty(ignore_apps=not self.purge):
